@@ -183,10 +183,60 @@ theorem inv_release (s : St) (h : Inv s) : Inv s.release := by
   unfold St.release; split
   · exact inv_congr s _ h rfl rfl rfl rfl rfl rfl rfl
   · exact h
+theorem inv_releaseWriter (s : St) (h : Inv s) : Inv s.releaseWriter := by
+  unfold St.releaseWriter; split
+  · exact inv_congr s _ h rfl rfl rfl rfl rfl rfl rfl
+  · exact h
+theorem releaseWriter_inst (s : St) : s.releaseWriter.inst = s.inst := by unfold St.releaseWriter; split <;> rfl
+theorem releaseWriter_live (s : St) : s.releaseWriter.live = s.live := by unfold St.releaseWriter; split <;> rfl
+theorem releaseWriter_timer (s : St) : s.releaseWriter.timer = s.timer := by unfold St.releaseWriter; split <;> rfl
+theorem releaseWriter_closed (s : St) : s.releaseWriter.closedByServer = s.closedByServer := by unfold St.releaseWriter; split <;> rfl
+theorem releaseWriter_closeAt (s : St) : s.releaseWriter.closeAt = s.closeAt := by unfold St.releaseWriter; split <;> rfl
+theorem releaseWriter_doneAt (s : St) : s.releaseWriter.doneAt = s.doneAt := by unfold St.releaseWriter; split <;> rfl
+theorem releaseWriter_rpc (s : St) : s.releaseWriter.rpc = s.rpc := by unfold St.releaseWriter; split <;> rfl
+theorem releaseWriter_closers (s : St) : s.releaseWriter.closers = s.closers := by unfold St.releaseWriter; split <;> rfl
+theorem releaseWriter_now (s : St) : s.releaseWriter.now = s.now := by unfold St.releaseWriter; split <;> rfl
+theorem releaseWriter_armedAt (s : St) : s.releaseWriter.armedAt = s.armedAt := by unfold St.releaseWriter; split <;> rfl
+theorem releaseWriter_cfg (s : St) : s.releaseWriter.cfg = s.cfg := by unfold St.releaseWriter; split <;> rfl
+theorem closeTransport_inst (s : St) : s.closeTransport.inst = s.inst := by
+  unfold St.closeTransport; split; rfl; simp only []; split <;> simp [St.emit, releaseWriter_inst, releaseWriter_live, releaseWriter_timer, releaseWriter_closed, releaseWriter_closeAt, releaseWriter_doneAt, releaseWriter_rpc, releaseWriter_closers, releaseWriter_now]
+theorem closeTransport_live (s : St) : s.closeTransport.live = s.live := by
+  unfold St.closeTransport; split; rfl; simp only []; split <;> simp [St.emit, releaseWriter_inst, releaseWriter_live, releaseWriter_timer, releaseWriter_closed, releaseWriter_closeAt, releaseWriter_doneAt, releaseWriter_rpc, releaseWriter_closers, releaseWriter_now]
+theorem closeTransport_timer (s : St) : s.closeTransport.timer = s.timer := by
+  unfold St.closeTransport; split; rfl; simp only []; split <;> simp [St.emit, releaseWriter_inst, releaseWriter_live, releaseWriter_timer, releaseWriter_closed, releaseWriter_closeAt, releaseWriter_doneAt, releaseWriter_rpc, releaseWriter_closers, releaseWriter_now]
+theorem closeTransport_rpc (s : St) : s.closeTransport.rpc = s.rpc := by
+  unfold St.closeTransport; split; rfl; simp only []; split <;> simp [St.emit, releaseWriter_inst, releaseWriter_live, releaseWriter_timer, releaseWriter_closed, releaseWriter_closeAt, releaseWriter_doneAt, releaseWriter_rpc, releaseWriter_closers, releaseWriter_now]
+theorem closeTransport_closers (s : St) : s.closeTransport.closers = s.closers := by
+  unfold St.closeTransport; split; rfl; simp only []; split <;> simp [St.emit, releaseWriter_inst, releaseWriter_live, releaseWriter_timer, releaseWriter_closed, releaseWriter_closeAt, releaseWriter_doneAt, releaseWriter_rpc, releaseWriter_closers, releaseWriter_now]
+theorem closeTransport_now (s : St) : s.closeTransport.now = s.now := by
+  unfold St.closeTransport; split; rfl; simp only []; split <;> simp [St.emit, releaseWriter_inst, releaseWriter_live, releaseWriter_timer, releaseWriter_closed, releaseWriter_closeAt, releaseWriter_doneAt, releaseWriter_rpc, releaseWriter_closers, releaseWriter_now]
+theorem closeTransport_doneAt (s : St) : s.closeTransport.doneAt = s.doneAt := by
+  unfold St.closeTransport; split; rfl; simp only []; split <;> simp [St.emit, releaseWriter_inst, releaseWriter_live, releaseWriter_timer, releaseWriter_closed, releaseWriter_closeAt, releaseWriter_doneAt, releaseWriter_rpc, releaseWriter_closers, releaseWriter_now]
+theorem closeTransport_closed (s : St) : s.closeTransport.closedByServer = true := by
+  unfold St.closeTransport; split
+  · rename_i h; exact h
+  · simp only []; split <;> simp [St.emit, releaseWriter_inst, releaseWriter_live, releaseWriter_timer, releaseWriter_closed, releaseWriter_closeAt, releaseWriter_doneAt, releaseWriter_rpc, releaseWriter_closers, releaseWriter_now]
+theorem closeTransport_closeAt (s : St) (h : s.closedByServer = false) : s.closeTransport.closeAt = some s.now := by
+  unfold St.closeTransport; simp only [h, Bool.false_eq_true, if_false]; split <;> simp [St.emit, releaseWriter_inst, releaseWriter_live, releaseWriter_timer, releaseWriter_closed, releaseWriter_closeAt, releaseWriter_doneAt, releaseWriter_rpc, releaseWriter_closers, releaseWriter_now]
+theorem stopTimer_inst (s : St) : s.stopTimer.inst = s.inst := by unfold St.stopTimer; split <;> rfl
+theorem stopTimer_live (s : St) : s.stopTimer.live = s.live := by unfold St.stopTimer; split <;> rfl
+theorem stopTimer_timer (s : St) : s.stopTimer.timer = none := by
+  unfold St.stopTimer; split
+  · rfl
+  · rename_i h; simpa using h
+theorem stopTimer_closed (s : St) : s.stopTimer.closedByServer = s.closedByServer := by unfold St.stopTimer; split <;> rfl
+theorem stopTimer_rpc (s : St) : s.stopTimer.rpc = s.rpc := by unfold St.stopTimer; split <;> rfl
+theorem stopTimer_closers (s : St) : s.stopTimer.closers = s.closers := by unfold St.stopTimer; split <;> rfl
+theorem stopTimer_closeAt (s : St) : s.stopTimer.closeAt = s.closeAt := by unfold St.stopTimer; split <;> rfl
+theorem stopTimer_now (s : St) : s.stopTimer.now = s.now := by unfold St.stopTimer; split <;> rfl
+theorem inv_lockWait (s : St) (w : Who) (r : List Instr) (h : Inv s) : Inv (s.lockWait w r) := inv_congr s _ h rfl rfl rfl rfl rfl rfl rfl
 theorem inv_closeTransport (s : St) (h : Inv s) : Inv s.closeTransport := by
   unfold St.closeTransport; split
   · exact h
-  · exact inv_congr s _ h rfl rfl rfl rfl rfl rfl rfl
+  · simp only []
+    split
+    · exact inv_releaseWriter _ (inv_emit _ _ (inv_congr s _ h rfl rfl rfl rfl rfl rfl rfl))
+    · exact inv_emit _ _ (inv_congr s _ h rfl rfl rfl rfl rfl rfl rfl)
 theorem inv_stopTimer (s : St) (h : Inv s) : Inv s.stopTimer := by
   unfold St.stopTimer; split
   · exact inv_like s _ h h.inst (fun j hj => ⟨hj, id⟩) (Or.inr rfl) rfl rfl rfl (fun _ hj => hj) (fun _ hj => Or.inl hj) rfl
@@ -522,7 +572,11 @@ theorem exec_inv : ∀ (f : Nat) (s : St) (w : Who) (p : List Instr), Inv s → 
         split
         · exact inv_block _ _ _ h1
         · exact ih _ _ _ h1
-      | handleClosed => simp only [exec]; exact ih _ _ _ (inv_congr s _ h rfl rfl rfl rfl rfl rfl rfl)
+      | handleClosed =>
+        simp only [exec]
+        split
+        · exact ih _ _ _ h
+        · exact ih _ _ _ (inv_congr s _ h rfl rfl rfl rfl rfl rfl rfl)
       | canReadSet => simp only [exec]; exact ih _ _ _ (inv_release s h)
       | yield => simp only [exec]; exact inv_congr s _ h rfl rfl rfl rfl rfl rfl rfl
       | drain i =>
@@ -540,15 +594,34 @@ theorem exec_inv : ∀ (f : Nat) (s : St) (w : Who) (p : List Instr), Inv s → 
       | write =>
         simp only [exec]
         split
-        · exact inv_congr s _ h rfl rfl rfl rfl rfl rfl rfl
-        · exact ih _ _ _ h
+        · exact inv_lockWait _ _ _ h
+        · split
+          · exact inv_congr s _ h rfl rfl rfl rfl rfl rfl rfl
+          · exact ih _ _ _ h
       | writeNow =>
         simp only [exec]
         split
-        · exact ih _ _ _ (inv_emit _ _ h)
+        · exact inv_lockWait _ _ _ h
         · split
-          · exact ih _ _ _ (inv_emit _ _ (inv_congr s _ h rfl rfl rfl rfl rfl rfl rfl))
-          · exact ih _ _ _ (inv_emit _ _ (inv_congr s _ h rfl rfl rfl rfl rfl rfl rfl))
+          · exact ih _ _ _ (inv_emit _ _ h)
+          · split
+            · exact ih _ _ _ (inv_emit _ _ (inv_congr s _ h rfl rfl rfl rfl rfl rfl rfl))
+            · split
+              · exact inv_congr s _ h rfl rfl rfl rfl rfl rfl rfl
+              · exact ih _ _ _ (inv_emit _ _ (inv_congr s _ h rfl rfl rfl rfl rfl rfl rfl))
+      | writeWait =>
+        simp only [exec]
+        split
+        · exact ih _ _ _ (inv_emit _ _ h)
+        · exact ih _ _ _ h
+      | wrapperIdle =>
+        -- the extracted order: `Updated(idle=True)` is sent while no stream exists
+        simp only [exec, priorIdleBeforeData, if_true]
+        refine ih _ _ _ ?_
+        split
+        · rename_i hl
+          exact inv_armTimer s h (by simp only [List.isEmpty_iff] at hl; simp [St.busy, hl])
+        · exact h
       | serverClose =>
         simp only [exec]
         split
@@ -556,6 +629,8 @@ theorem exec_inv : ∀ (f : Nat) (s : St) (w : Who) (p : List Instr), Inv s → 
         · exact ih _ _ _ h
       | serverCloseNow =>
         simp only [exec]
+        split
+        · exact h
         have h1 := inv_closeTransport s h
         have h2 : Inv (if s.cfg.closeStops then s.closeTransport.stopTimer else s.closeTransport) := by
           split
@@ -617,7 +692,7 @@ theorem exec_inv : ∀ (f : Nat) (s : St) (w : Who) (p : List Instr), Inv s → 
       | spawnCloser i => simp only [exec]; exact ih _ _ _ (inv_congr s _ h rfl rfl rfl rfl rfl rfl rfl)
       | resumeLoop => simp only [exec]; exact ih _ _ _ (inv_congr s _ h rfl rfl rfl rfl rfl rfl rfl)
       | loopEnd =>
-        simp only [exec]
+        simp only [exec, priorIdleBeforeData, Bool.not_true, Bool.false_and, Bool.false_eq_true, if_false]
         split
         · exact ih _ _ _ h
         · exact ih _ _ _ (inv_congr s _ h rfl rfl rfl rfl rfl rfl rfl)
@@ -831,7 +906,15 @@ theorem step_inv (s s' : St) (o : Op) (h : Inv s) (hs : step s o = some s') : In
   | appExit i =>
     simp only [step] at hs; split at hs <;> simp at hs; subst hs
     exact run_inv' _ _ _ (inv_setInst s i _ h (iok_of_fields (s.inst i) _ (h.inst i) rfl rfl rfl rfl rfl rfl rfl rfl rfl rfl rfl rfl) (by simp [Inst.busy]) (by simp))
-  | failWrites => simp only [step] at hs; simp at hs; subst hs; exact inv_congr s _ h rfl rfl rfl rfl rfl rfl rfl
+  | failWrites => simp only [step] at hs; simp at hs; subst hs; exact inv_releaseWriter _ (inv_congr s _ h rfl rfl rfl rfl rfl rfl rfl)
+  | pauseWrites => simp only [step] at hs; simp at hs; subst hs; exact inv_congr s _ h rfl rfl rfl rfl rfl rfl rfl
+  | resumeWrites => simp only [step] at hs; simp at hs; subst hs; exact inv_releaseWriter _ (inv_congr s _ h rfl rfl rfl rfl rfl rfl rfl)
+  | h2prior =>
+    simp only [step] at hs; split at hs <;> simp at hs; subst hs
+    exact run_inv' _ _ _ (inv_congr _ _ (inv_stopTimer s h) rfl rfl rfl rfl rfl rfl rfl)
+  | h2c =>
+    simp only [step] at hs; split at hs <;> simp at hs; subst hs
+    exact run_inv' _ _ _ (inv_congr _ _ (inv_stopTimer s h) rfl rfl rfl rfl rfl rfl rfl)
   | failAfter k => simp only [step] at hs; simp at hs; subst hs; exact inv_congr s _ h rfl rfl rfl rfl rfl rfl rfl
   | h2NoCredit => simp only [step] at hs; simp at hs; subst hs; exact inv_congr s _ h rfl rfl rfl rfl rfl rfl rfl
   | terminate => simp only [step] at hs; simp at hs; subst hs; exact inv_congr s _ h rfl rfl rfl rfl rfl rfl rfl
